@@ -25,9 +25,11 @@ type ChainTime struct {
 var SPEChoices = []uint64{32}
 
 // NewChainTime returns a chain time with slots-per-epoch chosen from
-// SPEChoices, symbolic current slot below 2^40 and a 12 s slot.
+// SPEChoices, symbolic current slot below 2^40 and a slot of 2^33 ns (a power
+// of two keeps slot*duration a shift for the solver; the real conversions are
+// checked by C03.time).
 func NewChainTime(_ uint64) *ChainTime {
-	c := &ChainTime{SPE: SPEChoices[vnd.Choose("ct.spe", len(SPEChoices))], Cur: phase0.Slot(vnd.U64("ct.cur")), GenesisNs: 1600000000 * 1000000000, SlotNs: 12 * 1000000000}
+	c := &ChainTime{SPE: SPEChoices[vnd.Choose("ct.spe", len(SPEChoices))], Cur: phase0.Slot(vnd.U64("ct.cur")), GenesisNs: 1600000000 * 1000000000, SlotNs: 1 << 33}
 	vnd.Assume(uint64(c.Cur) < 1<<40)
 	return c
 }
